@@ -345,6 +345,31 @@ def r4b_containers_copied(repo: Repo, rep):
         rep.undecided(R, "src/torchphysics/utils/data", "data sets", "a constructor that stores into its data container", "none found")
 
 
+def r6_sampler_builders_are_pure(repo: Repo, rep):
+    R = rep.rule("R-C14-6", "methods that build a sampler FROM a sampler (make_static of a non-static sampler, `*`, `+`, append) write nothing on the sampler they are called on", floor=4,
+                 why="the same sampler object is handed to several conditions: a product that makes its own factors static when one condition asks for a static copy freezes the points of every other condition")
+    base = repo.cls("problem.samplers.sampler_base.PointSampler")
+    for ci in repo.subclasses(base, strict=False):
+        for mname in ("make_static", "__mul__", "__add__", "append", "__rmul__", "__radd__"):
+            fi = ci.methods.get(mname)
+            if fi is None:
+                continue
+            if mname == "make_static" and ci.name == "StaticSampler":
+                continue  # a static sampler re-configures its own interval
+            rep.saw(fi)
+            me = fi.params[0] if fi.params else "self"
+            writes = []
+            for n in ast.walk(fi.node):
+                tg = n.targets if isinstance(n, ast.Assign) else [n.target] if isinstance(n, (ast.AugAssign, ast.AnnAssign)) else n.targets if isinstance(n, ast.Delete) else []
+                for t in tg:
+                    for x in ast.walk(t):
+                        if isinstance(x, ast.Attribute) and isinstance(x.value, ast.Name) and x.value.id == me and isinstance(x.ctx, (ast.Store, ast.Del)):
+                            writes.append(f"{me}.{x.attr}")
+                if isinstance(n, ast.Call) and attr_chain(n.func) == "setattr" and n.args and dump(n.args[0]) == me:
+                    writes.append(dump(n)[:40])
+            rep.check(R, not writes, fi.site(), fi.fq, "no attribute of the sampler is written", str(sorted(set(writes))), str(sorted(set(writes))))
+
+
 def r5_module_state(repo: Repo, rep):
     R = rep.rule("R-C14-5", "wrapping user functions / constructing conditions writes no module-level state (no global cache keyed by less than the whole function)", floor=3,
                  why="a process-wide cache makes a wrapper's behaviour depend on which other wrappers were built before it")
@@ -402,6 +427,9 @@ def r4d_points_cast_in_place(repo: Repo, rep):
 
 
 def run(repo: Repo, rep):
+    r6_sampler_builders_are_pure(repo, rep)
+    from .c15 import r1b_no_cache  # a sampler shared by several conditions serves each evaluation a fresh draw for ITS parameters: a stored draw is handed to the next condition
+    r1b_no_cache(repo, rep)
     from .c04 import r6_track  # evaluating a condition marks only its own coordinate copies as differentiable, never the (shared, cached) points of the sampler
     r6_track(repo, rep)
     from .c02 import r4_algebra  # a shared sampler's recorded length is its own point count, whatever parameters one evaluation passed
